@@ -25,7 +25,7 @@ func runRoundTrip(o opts, out *Output, sig int) {
 	var tb strings.Builder
 	tb.WriteString("Definition table_cases : list tcase := [\n")
 	nt := 0
-	var evCases, lkCases []string
+	var evCases, lkCases, ptCases []string
 	r := NewRng(o.seed)
 	stats := map[string]int{}
 	signal := []string{"traces", "logs", "metrics"}[sig]
@@ -61,6 +61,11 @@ func runRoundTrip(o opts, out *Output, sig int) {
 				return false
 			}
 			outItems = cr.Trees
+			if sig == 2 && cr.DecodedPoints != nil {
+				if pc, ok := pointCase(res.Recs, cr.DecodedPoints); ok {
+					ptCases = append(ptCases, " "+pc)
+				}
+			}
 			if sig < 2 && cr.Decoded != nil {
 				itemTy := int32(41)
 				if sig == 1 {
@@ -164,6 +169,14 @@ Print rt_propfail.
 			stats["event_cases"] = len(evCases)
 			stats["link_cases"] = len(lkCases)
 		}
+	}
+	if sig == 2 {
+		pparts := strings.SplitN(pointCheckCoq, "Definition point_mismatch", 2)
+		out.Coq.WriteString(pparts[0])
+		out.Coq.WriteString("Definition point_cases : list pcase := [\n" + strings.Join(ptCases, ";\n") + "\n].\n")
+		out.Coq.WriteString("Definition point_mismatch" + pparts[1])
+		out.Lists = append(out.Lists, "point_mismatch")
+		stats["point_cases"] = len(ptCases)
 	}
 	out.Extra["stats"] = stats
 }
